@@ -1,0 +1,87 @@
+// SPDX-FileCopyrightText: 2026 The Pion community <https://pion.ly>
+// SPDX-License-Identifier: MIT
+
+//go:build verif
+
+package ice
+
+import (
+	"context"
+	"net"
+
+	"github.com/pion/turn/v5"
+)
+
+// This file exists only with the verif build tag. It lets an external
+// verification harness script the TURN client used while gathering relay
+// candidates and relate local candidates to the connections they own.
+
+// VerifTURNClient is the part of a TURN client that gathering uses.
+type VerifTURNClient interface {
+	Listen() error
+	Allocate() (net.PacketConn, error)
+	Close()
+}
+
+// VerifSetTURNClientFactory replaces the factory that gatherCandidatesRelay
+// uses to create its TURN client. Call it before GatherCandidates.
+func (a *Agent) VerifSetTURNClientFactory(factory func(*turn.ClientConfig) (VerifTURNClient, error)) error {
+	return a.loop.Run(a.loop, func(context.Context) {
+		a.turnClientFactory = func(cfg *turn.ClientConfig) (turnClient, error) {
+			c, err := factory(cfg)
+			if err != nil {
+				return nil, err
+			}
+
+			return c, nil
+		}
+	})
+}
+
+// VerifCandidateConn returns the connection a local candidate was started
+// with (nil if it never was). Meant to be called while the agent is quiescent.
+func VerifCandidateConn(c Candidate) net.PacketConn {
+	switch cand := c.(type) {
+	case *CandidateHost:
+		return cand.conn
+	case *CandidateServerReflexive:
+		return cand.conn
+	case *CandidateRelay:
+		return cand.conn
+	case *CandidatePeerReflexive:
+		return cand.conn
+	default:
+		return nil
+	}
+}
+
+// VerifGatherCand is one local candidate with the connection it owns.
+type VerifGatherCand struct {
+	Candidate Candidate
+	Conn      net.PacketConn
+}
+
+// VerifGatherSnap is the gathering-related state of an agent.
+type VerifGatherSnap struct {
+	GatheringState  GatheringState
+	ConnectionState ConnectionState
+	LocalUfrag      string
+	Locals          []VerifGatherCand
+}
+
+// VerifGatherSnapshot reads the gathering state through the task loop.
+func (a *Agent) VerifGatherSnapshot() (VerifGatherSnap, error) {
+	var snap VerifGatherSnap
+	err := a.loop.Run(a.loop, func(context.Context) {
+		snap.GatheringState = a.gatheringState
+		snap.ConnectionState = a.connectionState
+		snap.LocalUfrag = a.localUfrag
+		for _, set := range a.localCandidates {
+			for _, c := range set {
+				snap.Locals = append(snap.Locals, VerifGatherCand{Candidate: c, Conn: VerifCandidateConn(c)})
+			}
+		}
+	})
+
+	return snap, err
+}
